@@ -61,7 +61,11 @@ def load_findings(pid):
 # worker side
 
 
-def isolated_call(fn, *args):
+class IsolatedTimeout(RuntimeError):
+    pass
+
+
+def isolated_call(fn, *args, timeout=None):
     """Run fn(*args) in a forked child and return its (picklable) result.  The calling
     process never executes the system under test itself, so every call starts from the
     same pristine interpreter state: one case = one exactly repeatable execution, even
@@ -85,8 +89,30 @@ def isolated_call(fn, *args):
         finally:
             os._exit(code)
     os.close(w)
-    with os.fdopen(r, "rb") as fh:
-        data = fh.read()
+    if timeout is not None:
+        import select
+        import signal
+
+        chunks = []
+        deadline = time.time() + timeout
+        while True:
+            left = deadline - time.time()
+            if left <= 0:
+                os.kill(pid, signal.SIGKILL)
+                os.waitpid(pid, 0)
+                os.close(r)
+                raise IsolatedTimeout("isolated child exceeded %ss" % timeout)
+            rd, _, _ = select.select([r], [], [], min(left, 1.0))
+            if rd:
+                b = os.read(r, 1 << 20)
+                if not b:
+                    break
+                chunks.append(b)
+        os.close(r)
+        data = b"".join(chunks)
+    else:
+        with os.fdopen(r, "rb") as fh:
+            data = fh.read()
     _, status = os.waitpid(pid, 0)
     if not data:
         raise RuntimeError("isolated child died without a result (status %r)" % status)
@@ -189,7 +215,10 @@ class Acc:
 
 def _has(mod, case, key):
     try:
-        res = isolated_call(mod.execute, case)
+        res = isolated_call(mod.execute, case, timeout=90)
+    except IsolatedTimeout:
+        print("warning: a minimisation candidate did not finish within 90s (dropped): %s" % json.dumps(case)[:300], file=sys.stderr)
+        return None
     except Exception:
         return None
     for s in res.get("violations", ()):
@@ -370,7 +399,8 @@ def run_check(pid, tier, seed, workers=None, quiet=False):
             elif e.get("replays"):
                 print("stale known finding %s: stored trace no longer reproduces" % e["id"], file=sys.stderr)
 
-    minimise_budget = float(os.environ.get("VERIF_MINIMISE_S", 25))
+    minimise_budget = float(os.environ.get("VERIF_MINIMISE_S", 20))
+    minimise_total_end = time.time() + float(os.environ.get("VERIF_MINIMISE_TOTAL_S", 150))
     if os.environ.get("VERIF_LIST_ONLY") == "1":
         for k in sorted(by_key):
             case, sig, _, _ = by_key[k][0]
@@ -396,7 +426,7 @@ def run_check(pid, tier, seed, workers=None, quiet=False):
             if pre and _has(mod, longer, k):
                 case, sig = longer, s_
                 break
-        small = minimise(mod, case, k, minimise_budget)
+        small = minimise(mod, case, k, max(2.0, min(minimise_budget, minimise_total_end - time.time())))
         name = "%s-%s.json" % (pid, seeds.digest(k))
         path = os.path.join(REPLAY_DIR, name)
         res = mod.execute(small)
